@@ -56,48 +56,231 @@ mod verif_c10 {
         ok
     }
 
-    // @harness id=C10 tier=quick timeout=1500 mem=12
-    // @bounds every string of <= 2 characters over the 16-letter class alphabet { } : ! . / < ^ > 0 9 a space newline e-acute CJK: no panic
-    #[kani::proof]
-    #[kani::unwind(10)]
-    //@STUBS std
-    fn c10_total_len2() {
-        let ok = total(&[], 2, true);
-        kani::cover!(ok);
-        kani::cover!(!ok);
+    /// Totality by transitions: a concrete prefix drives the parser into one of its states (with the buffer empty,
+    /// non-empty or holding an over-long number), then ONE symbolic character over the whole `char` range is consumed,
+    /// then a concrete suffix. Every panic site of the parser sits in the code executed for one (state, character)
+    /// pair, so covering every state with an arbitrary next character covers every transition of the machine.
+    fn one_step(prefix: &str, suffix: &str) -> bool {
+        let c: char = kani::any();
+        let mut s = String::with_capacity(64);
+        s.push_str(prefix);
+        s.push(c);
+        s.push_str(suffix);
+        let r = Template::from_str_with_tab_width(&s, 8);
+        let ok = r.is_ok();
+        std::mem::forget(r);
+        std::mem::forget(s);
+        ok
     }
 
-    // @harness id=C10 tier=quick timeout=1800 mem=14
-    // @bounds "{a" followed by <= 2 symbolic characters (alphabet without . and /): no panic
+    // @harness id=C10 tier=quick timeout=1200 mem=10
+    // @bounds prefix '' + one symbolic character over ALL Unicode scalar values + suffix '': no panic (Ok or Err)
     #[kani::proof]
-    #[kani::unwind(10)]
+    #[kani::unwind(12)]
     //@STUBS std
-    fn c10_total_key_plus2() {
-        let ok = total(b"{a", 2, false);
-        kani::cover!(ok);
-        kani::cover!(!ok);
+    fn c10_total_literal_empty() {
+        let ok = one_step("", "");
+        kani::cover!(ok || !ok);
     }
 
-    // @harness id=C10 tier=quick timeout=1800 mem=14
-    // @bounds "{a:" followed by <= 2 symbolic characters (alphabet without . and /): no panic
+    // @harness id=C10 tier=quick timeout=1200 mem=10
+    // @bounds prefix 'x' + one symbolic character over ALL Unicode scalar values + suffix '': no panic (Ok or Err)
     #[kani::proof]
-    #[kani::unwind(10)]
+    #[kani::unwind(12)]
     //@STUBS std
-    fn c10_total_align_plus2() {
-        let ok = total(b"{a:", 2, false);
-        kani::cover!(ok);
-        kani::cover!(!ok);
+    fn c10_total_literal_text() {
+        let ok = one_step("x", "");
+        kani::cover!(ok || !ok);
     }
 
-    // @harness id=C10 tier=quick timeout=1800 mem=14
-    // @bounds "{a:9" followed by <= 2 symbolic characters (alphabet without . and /): no panic
+    // @harness id=C10 tier=quick timeout=1200 mem=10
+    // @bounds prefix '{' + one symbolic character over ALL Unicode scalar values + suffix '}': no panic (Ok or Err)
     #[kani::proof]
-    #[kani::unwind(10)]
+    #[kani::unwind(12)]
     //@STUBS std
-    fn c10_total_width_plus2() {
-        let ok = total(b"{a:9", 2, false);
-        kani::cover!(ok);
-        kani::cover!(!ok);
+    fn c10_total_maybe_open() {
+        let ok = one_step("{", "}");
+        kani::cover!(ok || !ok);
+    }
+
+    // @harness id=C10 tier=quick timeout=1200 mem=10
+    // @bounds prefix 'x{' + one symbolic character over ALL Unicode scalar values + suffix '}': no panic (Ok or Err)
+    #[kani::proof]
+    #[kani::unwind(12)]
+    //@STUBS std
+    fn c10_total_maybe_open_after_text() {
+        let ok = one_step("x{", "}");
+        kani::cover!(ok || !ok);
+    }
+
+    // @harness id=C10 tier=quick timeout=1200 mem=10
+    // @bounds prefix '}' + one symbolic character over ALL Unicode scalar values + suffix '': no panic (Ok or Err)
+    #[kani::proof]
+    #[kani::unwind(12)]
+    //@STUBS std
+    fn c10_total_double_close() {
+        let ok = one_step("}", "");
+        kani::cover!(ok || !ok);
+    }
+
+    // @harness id=C10 tier=quick timeout=1200 mem=10
+    // @bounds prefix 'x}' + one symbolic character over ALL Unicode scalar values + suffix 'y': no panic (Ok or Err)
+    #[kani::proof]
+    #[kani::unwind(12)]
+    //@STUBS std
+    fn c10_total_double_close_after_text() {
+        let ok = one_step("x}", "y");
+        kani::cover!(ok || !ok);
+    }
+
+    // @harness id=C10 tier=quick timeout=1200 mem=10
+    // @bounds prefix '{a' + one symbolic character over ALL Unicode scalar values + suffix '}': no panic (Ok or Err)
+    #[kani::proof]
+    #[kani::unwind(12)]
+    //@STUBS std
+    fn c10_total_key() {
+        let ok = one_step("{a", "}");
+        kani::cover!(ok || !ok);
+    }
+
+    // @harness id=C10 tier=quick timeout=1200 mem=10
+    // @bounds prefix 'x{a' + one symbolic character over ALL Unicode scalar values + suffix '}y': no panic (Ok or Err)
+    #[kani::proof]
+    #[kani::unwind(12)]
+    //@STUBS std
+    fn c10_total_key_after_text() {
+        let ok = one_step("x{a", "}y");
+        kani::cover!(ok || !ok);
+    }
+
+    // @harness id=C10 tier=quick timeout=1200 mem=10
+    // @bounds prefix '{a:' + one symbolic character over ALL Unicode scalar values + suffix '}': no panic (Ok or Err)
+    #[kani::proof]
+    #[kani::unwind(12)]
+    //@STUBS std
+    fn c10_total_align() {
+        let ok = one_step("{a:", "}");
+        kani::cover!(ok || !ok);
+    }
+
+    // @harness id=C10 tier=quick timeout=1200 mem=10
+    // @bounds prefix '{a:9' + one symbolic character over ALL Unicode scalar values + suffix '}': no panic (Ok or Err)
+    #[kani::proof]
+    #[kani::unwind(12)]
+    //@STUBS std
+    fn c10_total_width_digit() {
+        let ok = one_step("{a:9", "}");
+        kani::cover!(ok || !ok);
+    }
+
+    // @harness id=C10 tier=quick timeout=1200 mem=10
+    // @bounds prefix '{a:<' + one symbolic character over ALL Unicode scalar values + suffix '}': no panic (Ok or Err)
+    #[kani::proof]
+    #[kani::unwind(12)]
+    //@STUBS std
+    fn c10_total_width_after_align() {
+        let ok = one_step("{a:<", "}");
+        kani::cover!(ok || !ok);
+    }
+
+    // @harness id=C10 tier=quick timeout=1200 mem=10
+    // @bounds prefix '{a:99999' + one symbolic character over ALL Unicode scalar values + suffix '}': no panic (Ok or Err)
+    #[kani::proof]
+    #[kani::unwind(12)]
+    //@STUBS std
+    fn c10_total_width_overflowing() {
+        let ok = one_step("{a:99999", "}");
+        kani::cover!(ok || !ok);
+    }
+
+    // @harness id=C10 tier=quick timeout=1200 mem=10
+    // @bounds prefix '{a!' + one symbolic character over ALL Unicode scalar values + suffix '}': no panic (Ok or Err)
+    #[kani::proof]
+    #[kani::unwind(12)]
+    //@STUBS std
+    fn c10_total_width_after_bang() {
+        let ok = one_step("{a!", "}");
+        kani::cover!(ok || !ok);
+    }
+
+    // @harness id=C10 tier=quick timeout=1200 mem=10
+    // @bounds prefix '{a:.' + one symbolic character over ALL Unicode scalar values + suffix '}': no panic (Ok or Err)
+    #[kani::proof]
+    #[kani::unwind(12)]
+    //@STUBS std
+    fn c10_total_first_style_empty() {
+        let ok = one_step("{a:.", "}");
+        kani::cover!(ok || !ok);
+    }
+
+    // @harness id=C10 tier=quick timeout=1200 mem=10
+    // @bounds prefix '{a:.r' + one symbolic character over ALL Unicode scalar values + suffix '}': no panic (Ok or Err)
+    #[kani::proof]
+    #[kani::unwind(12)]
+    //@STUBS std
+    fn c10_total_first_style() {
+        let ok = one_step("{a:.r", "}");
+        kani::cover!(ok || !ok);
+    }
+
+    // @harness id=C10 tier=quick timeout=1200 mem=10
+    // @bounds prefix '{a:.r/' + one symbolic character over ALL Unicode scalar values + suffix '}': no panic (Ok or Err)
+    #[kani::proof]
+    #[kani::unwind(12)]
+    //@STUBS std
+    fn c10_total_alt_style_empty() {
+        let ok = one_step("{a:.r/", "}");
+        kani::cover!(ok || !ok);
+    }
+
+    // @harness id=C10 tier=quick timeout=1200 mem=10
+    // @bounds prefix '{a:.r/b' + one symbolic character over ALL Unicode scalar values + suffix '}': no panic (Ok or Err)
+    #[kani::proof]
+    #[kani::unwind(12)]
+    //@STUBS std
+    fn c10_total_alt_style() {
+        let ok = one_step("{a:.r/b", "}");
+        kani::cover!(ok || !ok);
+    }
+
+    // @harness id=C10 tier=quick timeout=1200 mem=10
+    // @bounds prefix '{a' + one symbolic character over ALL Unicode scalar values + suffix '': no panic (Ok or Err)
+    #[kani::proof]
+    #[kani::unwind(12)]
+    //@STUBS std
+    fn c10_total_key_unclosed() {
+        let ok = one_step("{a", "");
+        kani::cover!(ok || !ok);
+    }
+
+    // @harness id=C10 tier=quick timeout=1200 mem=10
+    // @bounds prefix '{a:9' + one symbolic character over ALL Unicode scalar values + suffix '': no panic (Ok or Err)
+    #[kani::proof]
+    #[kani::unwind(12)]
+    //@STUBS std
+    fn c10_total_width_unclosed() {
+        let ok = one_step("{a:9", "");
+        kani::cover!(ok || !ok);
+    }
+
+    // @harness id=C10 tier=quick timeout=1200 mem=10
+    // @bounds prefix '{a:4294967296' + one symbolic character over ALL Unicode scalar values + suffix '}': no panic (Ok or Err)
+    #[kani::proof]
+    #[kani::unwind(18)]
+    //@STUBS std
+    fn c10_total_width_10_digits() {
+        let ok = one_step("{a:4294967296", "}");
+        kani::cover!(ok || !ok);
+    }
+
+    // @harness id=C10 tier=quick timeout=1200 mem=10
+    // @bounds prefix '{a:99999999999999999999' + one symbolic character over ALL Unicode scalar values + suffix '}': no panic (Ok or Err)
+    #[kani::proof]
+    #[kani::unwind(28)]
+    //@STUBS std
+    fn c10_total_width_20_digits() {
+        let ok = one_step("{a:99999999999999999999", "}");
+        kani::cover!(ok || !ok);
     }
 
     // ---- widths up to and beyond u16::MAX: "{a:" + 1..=6 symbolic digits + "}" must yield Ok (value fits) or Err, never panic
@@ -197,7 +380,7 @@ mod verif_c10 {
     }
 
     // @harness id=C10 tier=quick timeout=1800 mem=14
-    // @bounds lit1 + "{" + ws + lit2 with lit1, lit2 in 0..=2 symbolic letters from {x, y, '"', ','} and ws in {space, tab-free whitespace}: the brace stands for itself and the literal text is preserved in order
+    // @bounds lit1 + "{" + ws + lit2 with lit1, lit2 in 0..=2 symbolic letters from {x, y, '"', ','} and ws in {space, tab, newline, carriage return}: the brace stands for itself and the literal text is preserved in order
     #[kani::proof]
     #[kani::unwind(12)]
     //@STUBS std
@@ -218,7 +401,9 @@ mod verif_c10 {
         }
         bytes[len] = b'{';
         len += 1;
-        bytes[len] = b' ';
+        let ws: u8 = kani::any();
+        kani::assume(ws < 4);
+        bytes[len] = [b' ', b'\t', b'\n', b'\r'][ws as usize];
         len += 1;
         let mut i = 0;
         while i < n2 {
@@ -234,8 +419,8 @@ mod verif_c10 {
         let t = r.unwrap();
         // no placeholder, and the literal parts concatenate to the input itself
         assert!(literal_concat_eq(&t, &bytes[..len]));
-        kani::cover!(n1 == 2 && n2 == 2);
-        kani::cover!(n1 == 0);
+        kani::cover!(n1 == 2 && n2 == 2 && ws == 2);
+        kani::cover!(n1 == 0 && ws == 1);
         std::mem::forget(t);
     }
 
